@@ -318,3 +318,32 @@ Proof.
 Qed.
 
 End Hdr.
+
+(* ---------- the links a flush writes ---------- *)
+Lemma link_ids : forall l, map wp_id (link l) = map wp_id l.
+Proof. induction l as [|x [|y l] IH]; cbn; auto. f_equal. exact IH. Qed.
+
+Lemma link_chain : forall l i x y, nth_error (link l) i = Some x -> nth_error (link l) (S i) = Some y -> wp_next x = wp_id y.
+Proof.
+  induction l as [|a [|b l] IH]; intros i x y Hx Hy.
+  - destruct i; discriminate.
+  - destruct i as [|i]; cbn in Hy; [discriminate | destruct i; discriminate].
+  - change (link (a :: b :: l)) with (set_next (wp_id b) a :: link (b :: l)) in *.
+    destruct i as [|i].
+    + cbn [nth_error] in Hx, Hy. injection Hx as <-. cbn [wp_next set_next].
+      assert (Hid : map wp_id (link (b :: l)) = wp_id b :: map wp_id l) by (rewrite link_ids; reflexivity).
+      destruct (link (b :: l)) as [|y0 r]; [discriminate|]. cbn in Hy. injection Hy as <-. cbn in Hid. injection Hid as -> _. reflexivity.
+    + cbn [nth_error] in Hx, Hy. exact (IH i x y Hx Hy).
+Qed.
+
+(* the page images of a successful flush form a chain: every image names the id of the image written after it *)
+Theorem flush_images_linked s ids s' imgs pg al : do_flush s (FOk ids) = (s', FDone imgs pg al) ->
+  forall i a b, nth_error imgs i = Some a -> nth_error imgs (S i) = Some b ->
+  snd (fst (fst (fst (fst a)))) = fst (fst (fst (fst (fst b)))).
+Proof.
+  unfold do_flush. destruct (flush_range (ws_buf s)) as [n rep]. destruct n as [|n1]; [discriminate|].
+  intros H. injection H as _ <- _ _. intros i a b Ha Hb.
+  rewrite nth_error_map in Ha, Hb.
+  destruct (nth_error (link _) i) as [x|] eqn:Ex; [|discriminate]. destruct (nth_error (link _) (S i)) as [y|] eqn:Ey; [|discriminate].
+  cbn [option_map] in Ha, Hb. injection Ha as <-. injection Hb as <-. cbn [image_of fst snd]. exact (link_chain _ i x y Ex Ey).
+Qed.
